@@ -161,6 +161,12 @@ theorem correlator_step_order :
     Gen.Site.corrGet = ["pop:_store", "_remove_expired"] ∧
     Gen.Site.removeExpired = ["monotonic", "get:_store", "del:_store", "expired"] := by decide
 
+/-- TIE TO THE SOURCE (regenerated on every run, Gen/Site.lean): `_handle_response` looks the request up exactly once (`correlator.get`) after decoding and before anything is attributed -/
+theorem handle_response_step_order :
+    Gen.Site.handleResponse.filter (fun x => x ∈ ["from_pdu", "get:correlator", "put_delivery", "get_segmented"]) =
+      ["from_pdu", "get:correlator", "put_delivery", "get_segmented"] := by
+  decide
+
 end SmppVerif.Props.C13
 
 #print axioms SmppVerif.Props.C13.esme_generator_ok
@@ -178,3 +184,4 @@ end SmppVerif.Props.C13
 #print axioms SmppVerif.Props.C13.matched_at_most_once_under_interleaving
 #print axioms SmppVerif.Props.C13.sender_sequence_numbers_distinct
 #print axioms SmppVerif.Props.C13.correlator_step_order
+#print axioms SmppVerif.Props.C13.handle_response_step_order
